@@ -278,11 +278,33 @@ class CFG(object):
         const = None
         if isinstance(expr, ast.Constant):
             const = bool(expr.value)
+        elif isinstance(expr, ast.Name) and self.p is not None:
+            const = self._version_const(expr.id)
         if const is not False:
             self._edge(c.id, tn.id)
         if const is not True:
             self._edge(c.id, fn.id)
         return {tn.id}, {fn.id}
+
+    def _version_const(self, name):
+        """Truth value of a module-level constant defined purely from
+        sys.version_info (folded for the interpreter the repository runs on
+        here, which is also the one running this analysis)."""
+        import sys
+
+        r = self.p.resolve_in_func(self.fi, name)
+        if not (isinstance(r, tuple) and r[0] == "const"):
+            return None
+        e = r[1]
+        try:
+            names = {n.id for n in ast.walk(e) if isinstance(n, ast.Name)}
+            if names != {"sys"} or not any(isinstance(n, ast.Attribute) and n.attr == "version_info" for n in ast.walk(e)):
+                return None
+            if any(isinstance(n, (ast.Call, ast.Lambda)) for n in ast.walk(e)):
+                return None
+            return bool(eval(compile(ast.Expression(e), "<version-const>", "eval"), {"__builtins__": {}}, {"sys": sys}))
+        except Exception:
+            return None
 
     def _run_cleanups(self, preds, ctx, down_to):
         """Inline copies of the cleanups (finally bodies / with exits) between
